@@ -1,1 +1,331 @@
-//! c14 — harnesses not written yet.
+//! C14 — initialisation and boundary repair keep every coordinate inside the domain.
+//! Code: mahf::components::boundary::{Saturation,Toroidal,Mirror,CompleteOneTailedNormalCorrection}::constrain (called directly), boundary_constraint (driver)
+//! Code: mahf::components::initialization::{RandomSpread,RandomPermutation,RandomBitstring,Empty}, functional::{random_spread,random_permutation,random_bitstring}, initialization (driver)
+//! Out: coordinates further than K domain widths from the domain (K = 2 quick, 8 thorough; the reflection loop's trip count grows linearly with that distance); dimension > 2; population sizes > 2
+//! Out: the values produced by rand_distr's normal sampler (ln/exp are over-approximated by the engine): only containment on return and the draw-free cases are decided for the one-tailed correction
+//! Assume: termination = the loop's unwinding assertion passes with unwind = K+3 (a failed unwinding assertion is replayed natively under a watchdog; a hang is the violation)
+use mahf::components::boundary::{BoundaryConstraint, CompleteOneTailedNormalCorrection, Mirror, Saturation, Toroidal};
+use mahf::components::initialization::{Empty, Initialization, RandomBitstring, RandomPermutation, RandomSpread};
+use mahf::components::Component;
+use mahf::state::common::Populations;
+use mahf::{Individual, State};
+
+use crate::problems::{obj, BitP, PermP, RealP};
+use crate::rng::{draws, sym_random};
+use crate::sym;
+
+macro_rules! h {
+    ($name:ident, $uw:expr, $body:expr) => {
+        #[cfg_attr(kani, kani::proof)]
+        #[cfg_attr(kani, kani::unwind($uw))]
+        pub fn $name() {
+            $body;
+            vcover!(true, "reached");
+        }
+    };
+}
+
+const DOMS: [(f64, f64); 4] = [(-1.0, 2.0), (0.0, 1.0), (-5.12, 5.12), (0.001, 1000.0)];
+
+fn within_k(x: f64, a: f64, b: f64, k: f64) -> bool {
+    let w = b - a;
+    x >= a - k * w && x <= b + k * w
+}
+
+// ---- Saturation: symbolic domain ---------------------------------------------------------------------
+
+fn saturation() {
+    let (a, b) = (sym::finite_f64(), sym::finite_f64());
+    sym::assume(a < b);
+    let p = RealP::d1(a, b);
+    let x = sym::finite_f64();
+    let mut s = vec![x];
+    let mut rng = sym_random(0);
+    BoundaryConstraint::<RealP>::constrain(&Saturation::from_params(), &mut s, &p, &mut rng);
+    let r = s[0];
+    assert!(s.len() == 1, "dimension kept");
+    assert!(r >= a && r <= b, "Saturation: result within the domain bounds");
+    if x >= a && x <= b {
+        assert!(r.to_bits() == x.to_bits(), "Saturation: a coordinate already inside is unchanged");
+    }
+    BoundaryConstraint::<RealP>::constrain(&Saturation::from_params(), &mut s, &p, &mut rng);
+    assert!(s[0].to_bits() == r.to_bits(), "Saturation: idempotent");
+    assert!(draws() == 0, "Saturation draws nothing");
+    vcover!(x < a, "below");
+    vcover!(x > b, "above");
+    std::mem::forget((s, p, rng));
+}
+// @h tier=quick bound="dimension 1; every finite domain a<b, every finite coordinate" unwind=4
+h!(h_c14_saturation_any_domain, 4, saturation());
+
+/// @h tier=quick bound="dimension 2; domains [-1,2]x[0,1]; every finite coordinate pair" unwind=5
+#[cfg_attr(kani, kani::proof)]
+#[cfg_attr(kani, kani::unwind(5))]
+pub fn h_c14_saturation_dim2() {
+    let p = RealP::d2(-1.0, 2.0, 0.0, 1.0);
+    let (x, y) = (sym::finite_f64(), sym::finite_f64());
+    let mut s = vec![x, y];
+    let mut rng = sym_random(0);
+    BoundaryConstraint::<RealP>::constrain(&Saturation::from_params(), &mut s, &p, &mut rng);
+    assert!(s.len() == 2, "dimension kept");
+    assert!(s[0] >= -1.0 && s[0] <= 2.0 && s[1] >= 0.0 && s[1] <= 1.0, "Saturation: each coordinate within its own bounds");
+    if y >= 0.0 && y <= 1.0 {
+        assert!(s[1].to_bits() == y.to_bits(), "Saturation: inside coordinate unchanged (second dimension)");
+    }
+    vcover!(x > 2.0 && y < 0.0, "both outside");
+    std::mem::forget((s, p, rng));
+}
+
+// ---- Toroidal / Mirror: concrete domains, symbolic coordinate within K widths ----------------------------
+
+fn repair_generic<B: BoundaryConstraint<RealP>>(op: &B, dom: usize, k: f64, exact_bounds: bool) {
+    let (a, b) = DOMS[dom];
+    let p = RealP::d1(a, b);
+    let x = sym::finite_f64();
+    sym::assume(within_k(x, a, b, k));
+    let mut s = vec![x];
+    let mut rng = sym_random(0);
+    op.constrain(&mut s, &p, &mut rng);
+    let r = s[0];
+    let tol = if exact_bounds { 0.0 } else { (b - a) * 1e-12 };
+    assert!(r >= a - tol && r <= b + tol, "repair: result within the domain bounds");
+    assert!(r.is_finite(), "repair: finite in, finite out");
+    if x >= a && x <= b {
+        assert!(r.to_bits() == x.to_bits(), "repair: a coordinate already inside is unchanged");
+    }
+    op.constrain(&mut s, &p, &mut rng);
+    assert!(s[0].to_bits() == r.to_bits(), "repair: idempotent");
+    assert!(draws() == 0, "deterministic repair draws nothing");
+    vcover!(x < a, "below");
+    vcover!(x > b, "above");
+    vcover!(x == b, "exactly on the upper bound");
+    std::mem::forget((s, p, rng));
+}
+// @h tier=quick bound="domain [-1,2], every finite x within 2 widths" unwind=5 cost=2
+h!(h_c14_toroidal_d0, 5, repair_generic(&Toroidal::from_params(), 0, 2.0, false));
+// @h tier=quick bound="domain [0,1], every finite x within 2 widths" unwind=5 cost=2
+h!(h_c14_toroidal_d1, 5, repair_generic(&Toroidal::from_params(), 1, 2.0, false));
+// @h tier=thorough bound="domain [-5.12,5.12], every finite x within 8 widths" unwind=5 cost=3
+h!(h_c14_toroidal_d2_k8, 5, repair_generic(&Toroidal::from_params(), 2, 8.0, false));
+// @h tier=thorough bound="domain [0.001,1000], every finite x within 8 widths" unwind=5 cost=3
+h!(h_c14_toroidal_d3_k8, 5, repair_generic(&Toroidal::from_params(), 3, 8.0, false));
+
+// @h tier=quick bound="domain [-1,2], every finite x within 2 widths; loop bound 5 = termination" unwind=5 cost=2 unwind_is_violation=1
+h!(h_c14_mirror_d0, 5, repair_generic(&Mirror::from_params(), 0, 2.0, true));
+// @h tier=quick bound="domain [0,1], every finite x within 2 widths; loop bound 5 = termination" unwind=5 cost=2 unwind_is_violation=1
+h!(h_c14_mirror_d1, 5, repair_generic(&Mirror::from_params(), 1, 2.0, true));
+// @h tier=thorough bound="domain [-5.12,5.12], every finite x within 8 widths; loop bound 11 = termination" unwind=11 cost=4 unwind_is_violation=1
+h!(h_c14_mirror_d2_k8, 11, repair_generic(&Mirror::from_params(), 2, 8.0, true));
+// @h tier=thorough bound="domain [0.001,1000], every finite x within 8 widths; loop bound 11 = termination" unwind=11 cost=4 unwind_is_violation=1
+h!(h_c14_mirror_d3_k8, 11, repair_generic(&Mirror::from_params(), 3, 8.0, true));
+
+/// One-tailed normal correction, draw-free cases: a coordinate inside the closed domain needs no
+/// sample, is unchanged, and the operator returns.
+fn one_tailed_inside(dom: usize) {
+    let (a, b) = DOMS[dom];
+    let p = RealP::d1(a, b);
+    let x = sym::finite_f64();
+    sym::assume(x >= a && x <= b);
+    let mut s = vec![x];
+    let mut rng = sym_random(0);
+    BoundaryConstraint::<RealP>::constrain(&CompleteOneTailedNormalCorrection::from_params(), &mut s, &p, &mut rng);
+    assert!(s[0].to_bits() == x.to_bits(), "one-tailed correction: a coordinate already inside is unchanged");
+    assert!(draws() == 0, "one-tailed correction: no sample needed inside the domain");
+    vcover!(x == b, "exactly on the upper bound");
+    vcover!(x == a, "exactly on the lower bound");
+    std::mem::forget((s, p, rng));
+}
+// @h tier=quick bound="domain [-1,2], every x in [a,b]; loop bound 4 = termination" unwind=4 unwind_is_violation=1
+h!(h_c14_onetailed_inside_d0, 4, one_tailed_inside(0));
+// @h tier=thorough bound="domain [0,1], every x in [a,b]; loop bound 4 = termination" unwind=4 unwind_is_violation=1
+h!(h_c14_onetailed_inside_d1, 4, one_tailed_inside(1));
+
+// ---- the driver -------------------------------------------------------------------------------------------------
+
+/// @h tier=thorough bound="driver: population of 2 one-dimensional individuals, domain [-1,2], Saturation" unwind=6 cost=8 mem=20 timeout=1500
+#[cfg_attr(kani, kani::proof)]
+#[cfg_attr(kani, kani::unwind(6))]
+pub fn h_c14_driver_saturation() {
+    let p = RealP::d1(-1.0, 2.0);
+    let (x, y) = (sym::finite_f64(), sym::finite_f64());
+    let o = sym::legal_f64();
+    let mut pops = Populations::<RealP>::new();
+    pops.push(vec![Individual::new(vec![x], obj(o)), Individual::new_unevaluated(vec![y])]);
+    let mut s: State<RealP> = State::new();
+    s.insert(sym_random(0));
+    s.insert(pops);
+    let r = Component::<RealP>::execute(&Saturation::from_params(), &p, &mut s);
+    assert!(r.is_ok(), "driver succeeds");
+    {
+        let ps = s.populations();
+        assert!(ps.len() == 1 && ps.current().len() == 2, "driver: same stack, same population size");
+        let c = ps.current();
+        assert!(c[0].solution().len() == 1 && c[1].solution().len() == 1, "dimension kept");
+        let (rx, ry) = (c[0].solution()[0], c[1].solution()[0]);
+        assert!(rx >= -1.0 && rx <= 2.0 && ry >= -1.0 && ry <= 2.0, "driver: every individual repaired");
+        assert!(!c[0].is_evaluated() && !c[1].is_evaluated(), "driver: repaired individuals are unevaluated");
+    }
+    vcover!(x > 2.0 && y < -1.0, "both outside");
+    std::mem::forget((s, p));
+}
+
+/// @h tier=thorough bound="driver: population of 1 one-dimensional individual, domain [-1,2], Saturation" unwind=5 cost=8 mem=28 timeout=1800
+#[cfg_attr(kani, kani::proof)]
+#[cfg_attr(kani, kani::unwind(5))]
+pub fn h_c14_driver_saturation_1() {
+    let p = RealP::d1(-1.0, 2.0);
+    let x = sym::finite_f64();
+    let o = sym::legal_f64();
+    let mut pops = Populations::<RealP>::new();
+    pops.push(vec![Individual::new(vec![x], obj(o))]);
+    let mut s: State<RealP> = State::new();
+    s.insert(sym_random(0));
+    s.insert(pops);
+    let r = Component::<RealP>::execute(&Saturation::from_params(), &p, &mut s);
+    assert!(r.is_ok(), "driver succeeds");
+    {
+        let ps = s.populations();
+        assert!(ps.len() == 1 && ps.current().len() == 1, "driver: same stack, same population size");
+        let c = ps.current();
+        assert!(c[0].solution().len() == 1, "dimension kept");
+        let rx = c[0].solution()[0];
+        assert!(rx >= -1.0 && rx <= 2.0, "driver: the individual is repaired");
+        assert!(!c[0].is_evaluated(), "driver: a repaired individual is unevaluated");
+    }
+    vcover!(x > 2.0, "outside");
+    std::mem::forget((s, p));
+}
+
+/// One-tailed normal correction with a coordinate below the domain: whatever the sampler
+/// returns, the operator only returns a coordinate inside the domain.
+/// @h tier=thorough bound="domain [-1,2], x in [a-2w,a); all draw sequences within 4 draws on which it returns" unwind=6 cost=8 mem=28 timeout=1800
+#[cfg_attr(kani, kani::proof)]
+#[cfg_attr(kani, kani::unwind(6))]
+pub fn h_c14_onetailed_sample_d0() {
+    let (a, b) = DOMS[0];
+    let p = RealP::d1(a, b);
+    let x = sym::finite_f64();
+    sym::assume(x < a && x >= a - 2.0 * (b - a));
+    let mut s = vec![x];
+    let mut rng = sym_random(4);
+    BoundaryConstraint::<RealP>::constrain(&CompleteOneTailedNormalCorrection::from_params(), &mut s, &p, &mut rng);
+    assert!(s[0] >= a && s[0] <= b, "one-tailed correction: result within the domain bounds");
+    assert!(draws() >= 1, "one-tailed correction: a coordinate outside is re-sampled");
+    vcover!(true, "returns");
+    std::mem::forget((s, p, rng));
+}
+
+// ---- initialisation ------------------------------------------------------------------------------------------------
+
+fn random_spread(n: u32, dims: usize) {
+    let p = if dims == 1 { RealP::d1(-1.0, 2.0) } else { RealP::d2(-1.0, 2.0, 10.0, 20.0) };
+    let mut rng = sym_random(n * dims as u32 + 2);
+    let v = Initialization::<RealP>::initialize(&RandomSpread::from_params(n), &p, &mut rng);
+    assert!(v.len() == n as usize, "RandomSpread creates the requested number of solutions");
+    let mut i = 0;
+    while i < v.len() {
+        assert!(v[i].len() == dims, "RandomSpread: problem dimension");
+        assert!(v[i][0] >= -1.0 && v[i][0] < 2.0, "RandomSpread: first coordinate inside its domain");
+        if dims == 2 {
+            assert!(v[i][1] >= 10.0 && v[i][1] < 20.0, "RandomSpread: second coordinate inside its own domain");
+        }
+        i += 1;
+    }
+    std::mem::forget((v, p, rng));
+}
+// @h tier=quick bound="0 individuals" unwind=4
+h!(h_c14_spread_0, 4, random_spread(0, 1));
+// @h tier=quick bound="1 individual, 2 dimensions with different domains; all draw sequences within 4 draws" unwind=6 cost=3
+h!(h_c14_spread_1x2, 6, random_spread(1, 2));
+// @h tier=quick bound="2 individuals, 1 dimension; all draw sequences within 4 draws" unwind=6 cost=3
+h!(h_c14_spread_2x1, 6, random_spread(2, 1));
+// @h tier=thorough bound="2 individuals, 2 dimensions; all draw sequences within 6 draws" unwind=8 cost=6 timeout=1500 mem=12
+h!(h_c14_spread_2x2, 8, random_spread(2, 2));
+
+fn random_permutation(n: u32, d: usize) {
+    let p = PermP(d);
+    let mut rng = sym_random(n * d as u32 + 2);
+    let v = Initialization::<PermP>::initialize(&RandomPermutation::from_params(n), &p, &mut rng);
+    assert!(v.len() == n as usize, "RandomPermutation creates the requested number of solutions");
+    let mut i = 0;
+    while i < v.len() {
+        assert!(v[i].len() == d, "RandomPermutation: problem dimension");
+        let mut seen = [false; 5];
+        let mut j = 0;
+        while j < d {
+            let e = v[i][j];
+            assert!(e < d && !seen[e], "RandomPermutation: a permutation of all positions");
+            seen[e] = true;
+            j += 1;
+        }
+        i += 1;
+    }
+    std::mem::forget((v, p, rng));
+}
+// @h tier=quick bound="1 permutation of 3 positions; all draw sequences within 5 draws" unwind=7 cost=3
+h!(h_c14_perm_1x3, 7, random_permutation(1, 3));
+// @h tier=quick bound="2 permutations of 2 positions" unwind=7 cost=3
+h!(h_c14_perm_2x2, 7, random_permutation(2, 2));
+// @h tier=quick bound="1 permutation of 0 positions" unwind=4
+h!(h_c14_perm_1x0, 4, random_permutation(1, 0));
+// @h tier=thorough bound="1 permutation of 4 positions" unwind=8 cost=5 timeout=1500
+h!(h_c14_perm_1x4, 8, random_permutation(1, 4));
+
+fn random_bitstring(n: u32, d: usize) {
+    let p = BitP(d);
+    let mut rng = sym_random(n * d as u32 + 2);
+    let v = Initialization::<BitP>::initialize(&RandomBitstring::from_params(n, 0.5), &p, &mut rng);
+    assert!(v.len() == n as usize, "RandomBitstring creates the requested number of solutions");
+    let mut i = 0;
+    while i < v.len() {
+        assert!(v[i].len() == d, "RandomBitstring: problem dimension");
+        i += 1;
+    }
+    if n > 0 && d > 0 {
+        vcover!(v[0][0], "a one bit");
+        vcover!(!v[0][0], "a zero bit");
+    }
+    std::mem::forget((v, p, rng));
+}
+// @h tier=quick bound="2 bitstrings of length 2; all draw sequences within 6 draws" unwind=8 cost=3
+h!(h_c14_bits_2x2, 8, random_bitstring(2, 2));
+// @h tier=quick bound="1 bitstring of length 0" unwind=4 dead="a one bit;a zero bit"
+h!(h_c14_bits_1x0, 4, random_bitstring(1, 0));
+
+/// @h tier=quick bound="driver: RandomPermutation(2) of 2 positions pushed onto a stack of height 1" unwind=7 cost=4 mem=10
+#[cfg_attr(kani, kani::proof)]
+#[cfg_attr(kani, kani::unwind(7))]
+pub fn h_c14_driver_init() {
+    let p = PermP(2);
+    let mut pops = Populations::<PermP>::new();
+    pops.push(vec![Individual::new_unevaluated(vec![1usize, 0])]);
+    let mut s: State<PermP> = State::new();
+    s.insert(sym_random(6));
+    s.insert(pops);
+    let r = Component::<PermP>::execute(&RandomPermutation::from_params(2), &p, &mut s);
+    assert!(r.is_ok(), "initialisation succeeds");
+    {
+        let ps = s.populations();
+        assert!(ps.len() == 2, "initialisation pushes exactly one population");
+        assert!(ps.current().len() == 2, "requested number of individuals");
+        let c = ps.current();
+        assert!(!c[0].is_evaluated() && !c[1].is_evaluated(), "new individuals are unevaluated");
+        assert!(c[0].solution().len() == 2 && c[0].solution()[0] != c[0].solution()[1] && c[0].solution()[0] < 2 && c[0].solution()[1] < 2, "a permutation");
+        assert!(ps.peek(1).len() == 1 && ps.peek(1)[0].solution()[0] == 1, "population underneath untouched");
+    }
+    vcover!(true, "reached");
+    std::mem::forget((s, p));
+}
+/// @h tier=quick bound="Empty pushes one empty population" unwind=5 cost=2
+#[cfg_attr(kani, kani::proof)]
+#[cfg_attr(kani, kani::unwind(5))]
+pub fn h_c14_empty_init() {
+    let p = PermP(2);
+    let mut s: State<PermP> = State::new();
+    s.insert(Populations::<PermP>::new());
+    let r = Component::<PermP>::execute(&Empty::from_params(), &p, &mut s);
+    assert!(r.is_ok(), "Empty succeeds");
+    assert!(s.populations().len() == 1 && s.populations().current().is_empty(), "Empty pushes exactly one empty population");
+    vcover!(true, "reached");
+    std::mem::forget((s, p));
+}
